@@ -33,16 +33,18 @@ theorem nest_refines (trees idx : List Int) (key : Int) (k : Nat) (h : getIdx ke
   have hk : normIdx idx.length key = some k := by
     unfold getIdx at h
     unfold normIdx
-    split at h
-    · simp at h
-    · simp only [Option.some.injEq] at h
-      rename_i hc
-      simp only [Bool.or_eq_true, decide_eq_true_eq, not_or, not_lt, ge_iff_le, not_le] at hc
+    by_cases hb : (key < -(idx.length : Int) || key ≥ (idx.length : Int)) = true
+    · simp [hb] at h
+    · rw [if_neg hb] at h
+      simp only [Option.some.injEq] at h
+      have hc : ¬ key < -(idx.length : Int) ∧ ¬ (idx.length : Int) ≤ key := by
+        simpa [Bool.or_eq_true, decide_eq_true_eq, not_or] using hb
       by_cases h0 : 0 ≤ key
-      · have : ¬ key < 0 := by omega
-        simp only [this, if_false] at h
-        have : key.toNat < idx.length := by omega
-        simp [h0, this, h]
+      · have hn : ¬ key < 0 := by omega
+        simp only [hn, if_false] at h
+        have hlt : key.toNat < idx.length := by omega
+        simp [h0, hlt, h]
+        omega
       · have hneg : key < 0 := by omega
         simp only [hneg, if_true] at h
         have h1 : (-key).toNat ≤ idx.length := by omega
@@ -55,7 +57,10 @@ theorem nest_refines (trees idx : List Int) (key : Int) (k : Nat) (h : getIdx ke
     simp only [Option.bind_some]
     cases hn : normIdx trees.length j with
     | none => simp
-    | some m => cases trees[m]? <;> simp
+    | some m =>
+      cases ht : trees[m]? with
+      | none => simp [ht]
+      | some a => simp [ht]
 
 /-! ### ChainTrees -/
 
@@ -80,32 +85,118 @@ theorem bsearch_refines (trees : List (List Int)) (cum : List Nat) (m : Nat) (hm
       have hget : Py.idx (castL cum) (((i + j) / 2 : Nat) : Int) = some ((cum.getD ((i + j) / 2) 0 : Nat) : Int) := by
         rw [idx_nat _ _ (by simpa using hml), castL_getElem?]
         simp [List.getD, hml]
+      have hcast : (((i + j) / 2 : Nat) : Int) = ((i : Int) + (j : Int)) / 2 := by omega
+      have hget' := hget
+      rw [hcast] at hget'
       by_cases hle : cum.getD ((i + j) / 2) 0 ≤ idx
       · obtain ⟨v', e, r1, r2, r3, r4⟩ := ih ((i + j) / 2 + 1) j
           { v with mid := (((i + j) / 2 : Nat) : Int), i := (((i + j) / 2 : Nat) : Int) + 1 } (by omega) (by omega) hjm (by omega)
           (by simpa using hle) hs (by simp) hj hidx
+        have hb : bsearch cum idx (F + 1) i j = bsearch cum idx F ((i + j) / 2 + 1) j := by
+          simp only [bsearch, hlt, if_true, hle]
         refine ⟨v', ?_, ?_, r2, r3, ?_⟩
         · rw [whileF_next _ _ F v _ hc ?_]
           · exact e
           · have hleZ : ((cum.getD ((i + j) / 2) 0 : Nat) : Int) ≤ (idx : Int) := by omega
-            simp [chain_getitem.while1_body, seq, Py.bind, hi, hj, hmid, hs, hget, hidx, hleZ]
-        · simpa [bsearch, hlt, hle] using r1
-        · simpa [bsearch, hlt, hle] using r4
+            simp only [chain_getitem.while1_body, seq, Py.bind, hi, hj, hmid, hs, hget, hidx, hleZ, decide_true, if_true]
+        · rw [hb]; exact r1
+        · rw [hb]; exact r4
       · obtain ⟨v', e, r1, r2, r3, r4⟩ := ih i ((i + j) / 2)
           { v with mid := (((i + j) / 2 : Nat) : Int), j := (((i + j) / 2 : Nat) : Int) } h1 (by omega) (by omega) (by omega)
           hinv hs hi (by simp) hidx
+        have hb : bsearch cum idx (F + 1) i j = bsearch cum idx F i ((i + j) / 2) := by
+          simp only [bsearch, hlt, if_true, hle, if_false]
         refine ⟨v', ?_, ?_, r2, r3, ?_⟩
         · rw [whileF_next _ _ F v _ hc ?_]
           · exact e
           · have hleZ : ¬ ((cum.getD ((i + j) / 2) 0 : Nat) : Int) ≤ (idx : Int) := by omega
-            simp [chain_getitem.while1_body, seq, Py.bind, hi, hj, hmid, hs, hget, hidx, hleZ]
-        · simpa [bsearch, hlt, hle] using r1
-        · simpa [bsearch, hlt, hle] using r4
+            simp only [chain_getitem.while1_body, seq, Py.bind, hi, hj, hmid, hs, hget, hidx, hleZ, decide_false, Bool.false_eq_true, if_false]
+        · rw [hb]; exact r1
+        · rw [hb]; exact r4
     · have hc : chain_getitem.while1_cond v = some false := by
         simp [chain_getitem.while1_cond, hi, hj]; omega
       refine ⟨v, whileF_done _ _ F v hc, ?_, rfl, rfl, ?_⟩
       · simp [bsearch, hlt, hi]
       · simp only [bsearch, hlt, if_false]
         exact ⟨h1, by omega, hinv⟩
+
+/-! ### LazyLoadingTrees: the file reads are a state-passing callback whose state is the read log -/
+
+/-- the generated object represents the model state: file `i` is `swcs[i]`, slot `i` holds its tree iff it is cached -/
+structure LRep (g : LazyLoadingTrees) (l : Lazy) : Prop where
+  hs : g.swcs = castL (List.range l.cache.length)
+  ht : g.trees.length = l.cache.length
+  hc : ∀ i, i < l.cache.length → g.trees[i]? = some (if l.cache[i]?.getD true = true then some (i : Int) else none)
+
+theorem load_eq (l : Lazy) (k : Nat) :
+    l.load k = if l.cache[k]?.getD true = true then l else ⟨l.cache.set k true, l.log ++ [k]⟩ := by
+  simp [Lazy.load]
+
+theorem load_refines {g : LazyLoadingTrees} {l : Lazy} (h : LRep g l) (k : Nat) (hk : k < l.cache.length) :
+    ∃ g', lazy_load readLog g (k : Int) (castL l.log) = some (g', castL (l.load k).log, ()) ∧ LRep g' (l.load k) := by
+  have hkt : k < g.trees.length := by rw [h.ht]; exact hk
+  have hget : Py.idx g.trees (k : Int) = some (if l.cache[k]?.getD true = true then some (k : Int) else none) := by
+    rw [idx_nat _ _ hkt]; exact h.hc k hk
+  rw [load_eq]
+  by_cases hcached : l.cache[k]?.getD true = true
+  · refine ⟨g, ?_, ?_⟩
+    · simp only [lazy_load, lazy_load.body, Py.bind, hget, hcached, if_true, Option.isNone_some, Bool.false_eq_true, if_false, skip,
+        finish, Option.map_some]
+    · rw [if_pos hcached]; exact h
+  · have hks : k < g.swcs.length := by rw [h.hs]; simpa using hk
+    have hsw : Py.idx g.swcs (k : Int) = some (k : Int) := by
+      rw [idx_nat _ _ hks, h.hs, castL_getElem?]; simp [hk]
+    refine ⟨{ g with trees := g.trees.set k (some (k : Int)) }, ?_, ?_⟩
+    · simp only [lazy_load, lazy_load.body, Py.bind, hget, hcached, if_false, Option.isNone_none, if_true, hsw, readLog,
+        setIdx_nat _ _ _ hkt, finish, Option.map_some]
+      simp [castL]
+    · rw [if_neg hcached]
+      refine ⟨by simpa using h.hs, by simpa using h.ht, ?_⟩
+      intro i hi
+      simp only [List.length_set] at hi
+      by_cases e : i = k
+      · subst e; simp [hkt, hi]
+      · have e' : k ≠ i := fun c => e c.symm
+        simp only [List.getElem?_set_ne e']
+        exact h.hc i hi
+
+/-- **`LazyLoadingTrees.__getitem__` as translated**: it normalises the key, reads the file ONLY if the slot is empty
+(the read log grows by exactly that file), and returns the tree of that file — exactly `Lazy.get` -/
+theorem getitem_refines {g : LazyLoadingTrees} {l : Lazy} (h : LRep g l) (key : Int) :
+    (match l.get key with
+     | none => lazy_getitem readLog g key (castL l.log) = none
+     | some (l', k) => ∃ g', lazy_getitem readLog g key (castL l.log) = some (g', castL l'.log, some (k : Int)) ∧ LRep g' l') := by
+  have hlen : lazy_len g = some ((l.cache.length : Nat) : Int) := by
+    simp [lazy_len, lazy_len.body, finish, h.hs]
+  have hg := getIdx_refines key l.cache.length
+  simp only [Lazy.get, Lazy.len]
+  cases hk : getIdx key l.cache.length with
+  | none =>
+    rw [hk] at hg
+    simp [lazy_getitem, lazy_getitem.body, seq, Py.bind, hlen, hg, finish]
+  | some k =>
+    rw [hk] at hg
+    have hklt : k < l.cache.length := by
+      unfold getIdx at hk
+      split at hk
+      · simp at hk
+      · rename_i hb
+        simp only [Option.some.injEq] at hk
+        have hc : ¬ key < -(l.cache.length : Int) ∧ ¬ (l.cache.length : Int) ≤ key := by
+          simpa [Bool.or_eq_true, decide_eq_true_eq, not_or] using hb
+        split at hk <;> omega
+    obtain ⟨g', e, r⟩ := load_refines h k hklt
+    have hlk : (l.load k).cache.length = l.cache.length := by
+      rw [load_eq]; split <;> simp
+    have hkt : k < g'.trees.length := by rw [r.ht, hlk]; exact hklt
+    have hcached : (l.load k).cache[k]?.getD true = true := by
+      rw [load_eq]
+      split
+      · assumption
+      · simp [hklt]
+    have hread : Py.idx g'.trees (k : Int) = some (some (k : Int)) := by
+      rw [idx_nat _ _ hkt, r.hc k (by rw [hlk]; exact hklt), hcached]; simp
+    refine ⟨g', ?_, r⟩
+    simp [lazy_getitem, lazy_getitem.body, seq, Py.bind, hlen, hg, e, hread, finish]
 
 end RefinePop
